@@ -20,7 +20,13 @@ def run_one(prop, patch, tier='quick'):
         t0 = time.time()
         r = subprocess.run([os.path.join(VERIF, 'check'), prop, '--tier', tier], cwd=VERIF, env=env, capture_output=True, text=True)
         keys = re.findall(r'violation key=(\S+)', r.stdout)
+        expected = 'killed'
+        mp = os.path.join(os.path.dirname(patch), 'meta.json')
+        if patch.endswith('patch.diff') and os.path.exists(mp):
+            expected = json.load(open(mp)).get('expected_result', 'killed')
         res = 'killed' if r.returncode == 1 and 'VIOLATION property=%s' % prop in r.stdout else ('survived' if r.returncode == 0 else 'inconclusive(rc=%d)' % r.returncode)
+        if expected == 'survived' and res == 'survived':
+            res = 'survived(as judged: not a violation)'
         return dict(mutant=name, property=prop, result=res, keys=keys[:4], wall_s=round(time.time() - t0, 1), tail=r.stdout[-300:] if res != 'killed' else '')
     finally:
         shutil.rmtree(scratch, ignore_errors=True)
@@ -55,7 +61,7 @@ def main():
     out = os.path.join(VERIF, 'selftest_results', ('seeded' if seeded else 'mutants') + ('-' + '-'.join(args) if args else '') + '.json')
     os.makedirs(os.path.dirname(out), exist_ok=True)
     json.dump(results, open(out, 'w'), indent=1)
-    bad = [r for r in results if r['result'] != 'killed']
+    bad = [r for r in results if r['result'] != 'killed' and not r['result'].startswith('survived(as judged')]
     print('%d/%d killed' % (len(results) - len(bad), len(results)))
     return 1 if bad else 0
 
